@@ -64,45 +64,35 @@ GUESSED = [
 ]
 
 
-def _generic_statements(k: K.Kit, quads: bool, n: int) -> list:
+def _specs(quads: bool, n: int) -> list[tuple]:
+    """Neutral statement specs (jstat.pipe): IRI subject/predicate, plain literal object, IRI graph."""
+    from .. import pipe as P
+
     out = []
     for i in range(n):
-        s, p, o = k.g_iri(f"s{i}"), k.g_iri(f"p{i}"), k.g_lit(f"o{i}")
+        st = [P.t_iri(f"s{i}"), P.t_iri(f"p{i}"), P.t_lit(f"o{i}")]
         if quads:
-            out.append(k.g_quad(s, p, o, k.g_iri(f"g{i}")))
-        else:
-            out.append(k.g_triple(s, p, o))
+            st.append(P.t_iri(f"g{i}"))
+        out.append(tuple(st))
     return out
 
 
-def _rdflib_term(tag: str) -> ExtObj:
-    return R.uri(K.Kit.iri_str(tag))
+def _generic_statements(k: K.Kit, quads: bool, n: int) -> list:
+    from .. import pipe as P
+
+    return [P.generic_statement(k, st) for st in _specs(quads, n)]
 
 
 def _rdflib_statements(k: K.Kit, quads: bool, n: int) -> list:
-    out = []
-    for i in range(n):
-        s, p = _rdflib_term(f"s{i}"), _rdflib_term(f"p{i}")
-        o = R.literal(K.Kit.text(f"o{i}.lex", None))
-        if quads:
-            out.append(k.new(K.RP, "Quad", s, p, o, _rdflib_term(f"g{i}")))
-        else:
-            out.append(k.new(K.RP, "Triple", s, p, o))
-    return out
+    from .. import pipe as P
+
+    return [P.rdflib_statement(k, st) for st in _specs(quads, n)]
 
 
 def _rdflib_store(k: K.Kit, quads: bool, n: int) -> ExtObj:
-    it = k.it
-    if quads:
-        ds = R.new_dataset(it)
-        for i in range(n):
-            ctx = R._get_context(it, ds, _rdflib_term(f"g{i}"))
-            R._add_triple(it, ctx, (_rdflib_term(f"s{i}"), _rdflib_term(f"p{i}"), R.literal(K.Kit.text(f"o{i}.lex", None))))
-        return ds
-    g = R.new_graph(it, _rdflib_term("graphid"))
-    for i in range(n):
-        R._add_triple(it, g, (_rdflib_term(f"s{i}"), _rdflib_term(f"p{i}"), R.literal(K.Kit.text(f"o{i}.lex", None))))
-    return g
+    from .. import pipe as P
+
+    return P.rdflib_store_for(k, 2 if quads else 1, _specs(quads, n))
 
 
 def _mk_options(k: K.Kit, pt: dict) -> Any:
@@ -170,10 +160,10 @@ def run_point(prog, entry: tuple, pt: dict, n_stmts: int = 2) -> dict:
                     out = k.output()
                     k.call(k.get(K.GS, "flat_stream_to_file"), k.generator(stmts), out, opts)
                 elif kind == "grouped_frames":
-                    frames = it.drain(k.call(k.get(K.GS, "grouped_stream_to_frames"), k.generator([k.g_sink(stmts)]), opts))
+                    frames = it.drain(k.call(k.get(K.GS, "grouped_stream_to_frames"), k.generator([k.g_sink(stmts[:1]), k.g_sink(stmts[1:])] if len(stmts) > 1 else [k.g_sink(stmts)]), opts))
                 elif kind == "grouped_file":
                     out = k.output()
-                    k.call(k.get(K.GS, "grouped_stream_to_file"), k.generator([k.g_sink(stmts)]), out, options=opts)
+                    k.call(k.get(K.GS, "grouped_stream_to_file"), k.generator([k.g_sink(stmts[:1]), k.g_sink(stmts[1:])] if len(stmts) > 1 else [k.g_sink(stmts)]), out, options=opts)
                 elif kind == "sink_serialize":
                     out = k.output()
                     k.method(k.g_sink(stmts), "serialize", out)
@@ -205,6 +195,27 @@ def run_point(prog, entry: tuple, pt: dict, n_stmts: int = 2) -> dict:
         except PyRaise as pr:
             return {"verdict": "RAISES", "exc": it.exc_class_name(pr.exc), "stage": stage}
         emitted = _count_statement_rows(frames)
+        from .. import refdec
+
+        from .. import pipe as P
+        from ..freeze import freeze
+
+        ref = refdec.decode(it.schema, [f for f in frames if isinstance(f, Msg)])
+        decoded = len([x for x in ref.items if x[0] != "ns"])
+        want_items = P.expected_items(_specs(quads, n_stmts), 0)
+        triples_stream_for_quads = quads and ref.options is not None and ref.options.get("physical_type") == 1
+        if triples_stream_for_quads:
+            # documented behaviour of guess_stream: a GRAPHS-based logical type requested for quads/a Dataset selects a
+            # TripleStream ("RDF graph stream": a stream of unnamed graphs) - graph names are not part of that stream
+            want_items = [("triple",) + tuple(x[1:4]) for x in want_items]
+        want = freeze(want_items)
+        got = freeze([x for x in ref.items if x[0] != "ns"])
+        if pt.get("cls") == "GraphStream" or (integ == "rdflib" and quads) or kind in ("store", "plugin", "plugin_options", "grouped_frames", "grouped_file") and integ == "rdflib":
+            same_content = sorted(map(repr, got)) == sorted(map(repr, want))
+        else:
+            same_content = got == want
+        if pt.get("cls") == "TripleStream" and quads is False:
+            pass
         rows_appended = sum(e.get("added", 0) for e in it.events if e["kind"] == "flow")
         rows_emitted = sum(len(K.Kit.rows_of(f)) for f in frames if isinstance(f, Msg))
         # the stream used (guessed entry points create it inside pyjelly): find it through the events
@@ -219,7 +230,7 @@ def run_point(prog, entry: tuple, pt: dict, n_stmts: int = 2) -> dict:
             left = len(fl.attrs["data"].items)
             flow_cls = fl.cls.name
             flow_lt = fl.attrs.get("logical_type")
-        ok = emitted == n_stmts and (left in (0, None)) and rows_emitted == rows_appended
+        ok = emitted == n_stmts and (left in (0, None)) and rows_emitted == rows_appended and not ref.errors and decoded == n_stmts and same_content
         return {
             "verdict": "DRAINED" if ok else "DROPS",
             "emitted_statement_rows": emitted,
@@ -227,6 +238,9 @@ def run_point(prog, entry: tuple, pt: dict, n_stmts: int = 2) -> dict:
             "rows_left_in_flow": left,
             "rows_appended": rows_appended,
             "rows_emitted": rows_emitted,
+            "reference_decoder_errors": ref.errors[:2],
+            "reference_decoder_statements": decoded,
+            "reference_decoder_content_equal": same_content,
             "frames": len(frames),
             "flow_class": flow_cls,
             "flow_logical_type": flow_lt,
@@ -326,13 +340,19 @@ def check(chk: Check) -> None:
         inst = f"{r['entry']}|{pt}|n={r['submitted'] if 'submitted' in r else ''}"
         tally[r["verdict"]] = tally.get(r["verdict"], 0) + 1
         if r["verdict"] == "DROPS":
-            construct = (r.get("impl") or r["entry"]) + ":end-of-input-flush"
+            if r["emitted_statement_rows"] != r["submitted"] or r["rows_left_in_flow"] not in (0, None):
+                why = "end-of-input-flush"
+            elif r["rows_appended"] != r["rows_emitted"]:
+                why = "rows-lost"
+            else:
+                why = "decodes-differently"
+            construct = (r.get("impl") or r["entry"]) + ":" + why
             chk.fail(
                 "C06.PATH.drained",
                 inst,
                 construct,
                 f"accepted configuration returns normally with {r['submitted'] - r['emitted_statement_rows']} of {r['submitted']} statements not emitted "
-                f"({r['rows_left_in_flow']} rows left in {r['flow_class']} logical_type={r['flow_logical_type']}; {r['rows_appended']} rows entered the flow, {r['rows_emitted']} reached the caller): entry {r['entry']} point {pt}",
+                f"({r['rows_left_in_flow']} rows left in {r['flow_class']} logical_type={r['flow_logical_type']}; {r['rows_appended']} rows entered the flow, {r['rows_emitted']} reached the caller; an independent decoder reads {r['reference_decoder_statements']} statements ({'the submitted ones' if r['reference_decoder_content_equal'] else 'DIFFERENT from the submitted ones'}){', errors ' + str(r['reference_decoder_errors']) if r['reference_decoder_errors'] else ''}): entry {r['entry']} point {pt}",
                 r,
             )
         else:
